@@ -62,14 +62,17 @@ VT(n) == [n |-> n, t |-> VoidTag]
 TT(n, t) == [n |-> n, t |-> t]
 ScenD ==
   { << P("nsa", DUnionS("Ua", ca, ea, ta)), P("nsa", DUnionS("Ub", cb, eb, tb)),
-       P("nsa", DStruct0("Sa", NoRef, <<f1>>)) >> \o uc :
+       P("nsa", DStruct0("Sa", NoRef, <<f1, [n |-> "f5", t |-> Str, dflt |-> FALSE, doc |-> "d4", ann |-> "Dep"]>>)) >> \o uc :
       ca \in BOOLEAN, cb \in BOOLEAN,
       \* a third level: the open/closed rule and tag clashes along chains of three
       uc \in {<<>>, <<P("nsa", DUnionS("Uc", TRUE, R("Ub"), <<VT("t5")>>))>>, <<P("nsa", DUnionS("Uc", FALSE, R("Ub"), <<VT("t1")>>))>>,
               <<P("nsa", DUnionS("Uc", FALSE, R("Ua"), <<VT("t5")>>))>>},
       ea \in {NoRef, R("Ub"), R("Sa")},
       eb \in {NoRef, R("Ua")},
+      \* (members with a docstring and/or an annotation: Dep = Deprecated(), Prev = Preview())
       ta \in {<<VT("t1"), TT("t2", R("Sa"))>>, <<VT("t1"), VT("other")>>, <<VT("t1"), TT("t1", I32)>>,
+              <<[n |-> "t1", t |-> VoidTag, doc |-> "d1", ann |-> "Dep"], [n |-> "t2", t |-> R("Sa"), doc |-> "d2", ann |-> "Prev"],
+                [n |-> "t4", t |-> VoidTag, doc |-> "", ann |-> "Dep"], [n |-> "t6", t |-> VoidTag, doc |-> "d3", ann |-> ""]>>,
               <<TT("t2", R("Void"))>>, <<TT("t2", RN("Ub"))>>},
       tb \in {<<VT("t3")>>, <<VT("t1")>>, <<TT("t3", RN("Void"))>>} }
 
